@@ -51,6 +51,8 @@ fn int_const_total() {
 /// actions returns a one-entry map whose key is the one the grammar builder looks for ("left" for left/reduce, "right"
 /// for right/shift), at production and at terminal level.  complete: the functions have no input but an unused context.
 /// (The maps are leaked: dropping a String-keyed BTreeMap costs CBMC minutes.)
+/// NOT REGISTERED: measured -- timed out at 1200 s even so (eight one-entry String-keyed BTreeMaps); the design-phase
+/// measurement (420 s for one) stands.  Seed C05f stays missed.  Kept for the record.
 #[kani::proof]
 #[kani::unwind(8)]
 fn assoc_keywords() {
